@@ -311,8 +311,8 @@ void h_br2d(void) {
     struct blocked_range2d r, n;
     mk_dim(&r.my_rows, &IN_rb, &IN_re, &IN_rg); mk_dim(&r.my_cols, &IN_cb, &IN_ce, &IN_cg);
     __CPROVER_assume(blocked_range2d_is_divisible(&r));
-#ifdef BELOW_2_50
-    __CPROVER_assume(IN_re - IN_rb <= ((size_t)1 << 50) && IN_ce - IN_cb <= ((size_t)1 << 50) && IN_rg <= ((size_t)1 << 50) && IN_cg <= ((size_t)1 << 50));
+#ifdef ND_SMALL
+    __CPROVER_assume(IN_re - IN_rb <= ((size_t)1 << 12) && IN_ce - IN_cb <= ((size_t)1 << 12) && IN_rg <= ((size_t)1 << 12) && IN_cg <= ((size_t)1 << 12));
 #endif
     n = r; g_dim_bad = false; g_dim_calls = 0;
     blocked_range2d_do_split(&n, &r, 0);
@@ -324,9 +324,9 @@ void h_br3d(void) {
     struct blocked_range3d r, n;
     mk_dim(&r.my_pages, &IN_pb, &IN_pe, &IN_pg); mk_dim(&r.my_rows, &IN_rb, &IN_re, &IN_rg); mk_dim(&r.my_cols, &IN_cb, &IN_ce, &IN_cg);
     __CPROVER_assume(blocked_range3d_is_divisible(&r));
-#ifdef BELOW_2_50
-    __CPROVER_assume(IN_re - IN_rb <= ((size_t)1 << 50) && IN_ce - IN_cb <= ((size_t)1 << 50) && IN_pe - IN_pb <= ((size_t)1 << 50)
-                     && IN_rg <= ((size_t)1 << 50) && IN_cg <= ((size_t)1 << 50) && IN_pg <= ((size_t)1 << 50));
+#ifdef ND_SMALL
+    __CPROVER_assume(IN_re - IN_rb <= ((size_t)1 << 12) && IN_ce - IN_cb <= ((size_t)1 << 12) && IN_pe - IN_pb <= ((size_t)1 << 12)
+                     && IN_rg <= ((size_t)1 << 12) && IN_cg <= ((size_t)1 << 12) && IN_pg <= ((size_t)1 << 12));
 #endif
     n = r; g_dim_bad = false; g_dim_calls = 0;
     blocked_range3d_do_split(&n, &r, 0);
